@@ -23,7 +23,7 @@ FORMATS = [None, "f"]
 
 
 def examples(tier):
-    return 3200 if tier == "quick" else 30000
+    return 3200 if tier == "quick" else 60000
 
 
 @st.composite
